@@ -4,5 +4,14 @@ import subprocess, re
 p = '/verif/DESIGN.md'; s = open(p).read()
 t = subprocess.run(['/verif/tools/seed_table.py'], capture_output=True, text=True).stdout
 s = re.sub(r'<!-- SEEDTABLE-BEGIN -->.*?<!-- SEEDTABLE-END -->', lambda m: '<!-- SEEDTABLE-BEGIN -->\n' + t + '<!-- SEEDTABLE-END -->', s, flags=re.S)
+st = subprocess.run(['/verif/tools/status_table.py'], capture_output=True, text=True).stdout
+s = re.sub(r'<!-- STATUSTABLE-BEGIN -->.*?<!-- STATUSTABLE-END -->', lambda m: '<!-- STATUSTABLE-BEGIN -->\n' + st + '<!-- STATUSTABLE-END -->', s, flags=re.S)
+import glob
+def loc(pat): return sum(len(open(f).read().splitlines()) for f in glob.glob(pat, recursive=True))
+sizes = (f"Sizes: `Model/` {loc('/verif/lean/EzdxfVerif/Model/*.lean')/1000:.1f} kLoC in {len(glob.glob('/verif/lean/EzdxfVerif/Model/*.lean'))} files (core Lean only), "
+         f"`Lemmas/` {loc('/verif/lean/EzdxfVerif/Lemmas/*.lean')/1000:.1f} kLoC in {len(glob.glob('/verif/lean/EzdxfVerif/Lemmas/*.lean'))} files, `Props/` {loc('/verif/lean/EzdxfVerif/Props/*.lean')/1000:.1f} kLoC, "
+         f"drivers {loc('/verif/lean/Drivers/*.lean')/1000:.1f} kLoC, harness {loc('/verif/harness/**/*.py')/1000:.1f} kLoC Python; "
+         f"{len(subprocess.run(['git','-C','/repo','log','--format=%s'],capture_output=True,text=True).stdout.count and [l for l in subprocess.run(['git','-C','/repo','log','--format=%s'],capture_output=True,text=True).stdout.splitlines() if l.startswith('fix:')])} `fix:` commits in /repo.")
+s = re.sub(r'<!-- SIZES -->(\nSizes:[^\n]*)?', lambda m: '<!-- SIZES -->\n' + sizes, s)
 open(p, 'w').write(s)
 print('DESIGN.md seed table updated:', t.strip().splitlines()[-1])
